@@ -81,8 +81,14 @@ func newValue(typ *meta.Type, f val.Format, v interface{}) (val.Value, error) {
 	case val.FmtEnumList:
 		return toEnumList(typ.Enum(), v)
 	case val.FmtUnion:
-		cvt, _, err := val.ConvOneOf(typ.UnionFormats(), v)
-		return cvt, err
+		// member types are tried in order. going thru each member's type and not just its
+		// format lets enumeration, bits, identityref and leafref members convert
+		for _, member := range typ.Union() {
+			if cvt, err := NewValue(member, v); err == nil && cvt != nil {
+				return cvt, nil
+			}
+		}
+		return nil, fmt.Errorf("could not convert %v to any of the allowed types", v)
 	case val.FmtUnionList:
 		return toUnionList(typ, v)
 	case val.FmtLeafRef:
